@@ -91,6 +91,7 @@ func c14(c *Ctx) {
 	if !c.Anchor(send != nil && htcp != nil && newState != nil, "reply-addressing", "canary send / handleTCP / NewState") {
 		return
 	}
+	c14SeqCompare(c)
 	// ---- (1) roles in send()
 	th := fieldStoresIn(send, "Header")
 	// two Header types (tcp, ipv4) share the name: split by field presence
